@@ -53,7 +53,9 @@ def r03a(ctx):
             loops.append((n, okg, guards))
     writers = calls(f, lambda c: call_name(c) in ("_save_as_zip", "_save_as_folder", "_save_as_xml", "_save_zip", "_save_folder", "_save_xml"))
     if not writers:
-        raise AnalysisError("R03a: no writer call found in Container.save")
+        ctx.instance("R03a", f"{f.file}:{f.ident}", "a writer is called", ok=False)
+        ctx.report("R03a", f, f.node, "Container.save calls no writer", "Container.save no longer reaches _save_as_zip/_save_as_folder/_save_as_xml")
+        return
     for w in writers:
         wn = node_of(cfg, w)
         good = [l for l, okg, _ in loops if okg and cfg.dominates(node_of(cfg, l), wn)]
@@ -104,7 +106,9 @@ def r03b(ctx):
     loops = _flush_loops(f)
     saves = calls(f, lambda c: call_name(c) == "save" and isinstance(c.func, ast.Attribute) and "container" in ast.unparse(c.func.value))
     if not saves:
-        raise AnalysisError("R03b: container.save call not found in Document.save")
+        ctx.instance("R03b", f"{f.file}:{f.ident}", "container.save is called", ok=False)
+        ctx.report("R03b", f, f.node, "Document.save does not call container.save", "Document.save no longer hands the flushed parts to container.save")
+        return
     for n, sp, bad in loops:
         ctx.instance("R03b", f"{f.file}:{f.ident}", f"flush loop at line {n.lineno} filters nothing but None", ok=not bad, nontrivial=True, line=n.lineno)
         if bad:
@@ -138,7 +142,11 @@ def r03c(ctx):
                    and "keys" in ast.unparse(a.value) for a in walk_no_nested(f.node)):
                 else_loop = n
     if else_loop is None:
-        raise AnalysisError("R03c: 'everything else' loop of _save_zip not found")
+        ctx.instance("R03c", f"{f.file}:{f.ident}", "a loop writes every remaining part", ok=False)
+        ctx.report("R03c", f, f.node, "_save_zip has no loop over the remaining part names",
+                   "_save_zip no longer iterates a list built from the keys of the part table: parts other than the named XML parts (pictures, "
+                   "objects, thumbnails) are not written")
+        return
     lst = else_loop.iter.id
     removes = calls(f, lambda c: call_name(c) == "remove" and isinstance(c.func, ast.Attribute) and ast.unparse(c.func.value) == lst)
     ln = node_of(cfg, else_loop)
